@@ -80,6 +80,7 @@ type World struct {
 	P *Program
 	C *Contracts
 	expanded bool
+	implFrameFailures []*Obligation
 }
 
 func loadWorld() (*World, error) {
